@@ -74,10 +74,10 @@ def assemble_rule(ctx):
 def run(ctx):
     from ..shared import flag_pair_rule as _flag_pair_rule
 
-    _flag_pair_rule(ctx, "R13.10", scope=lambda f, _s=("EasyFEA.FEM._field", "EasyFEA.FEM._forms", "EasyFEA.Simulations._weakforms"): f.module.name.startswith(_s), min_instances=1)
+    ctx.attempt(_flag_pair_rule, ctx, "R13.10", scope=lambda f, _s=("EasyFEA.FEM._field", "EasyFEA.FEM._forms", "EasyFEA.Simulations._weakforms"): f.module.name.startswith(_s), min_instances=1)
     from ..shared import shared_container_rule as _shared_container_rule
 
-    _shared_container_rule(ctx, "R13.9", scope=lambda f, _s=("EasyFEA.FEM._field", "EasyFEA.FEM._forms", "EasyFEA.FEM._linalg", "EasyFEA.Models._weakforms", "EasyFEA.Simulations._weakforms"): f.module.name.startswith(_s), min_instances=30)
+    ctx.attempt(_shared_container_rule, ctx, "R13.9", scope=lambda f, _s=("EasyFEA.FEM._field", "EasyFEA.FEM._forms", "EasyFEA.FEM._linalg", "EasyFEA.Models._weakforms", "EasyFEA.Simulations._weakforms"): f.module.name.startswith(_s), min_instances=30)
     repo = ctx.repo
     ctx.level = "other"
     ctx.explanation = (
@@ -189,7 +189,7 @@ def run(ctx):
         else:
             r6.fail(f.qualname, "active-dof", f.file, f.lineno, f"Field.{mname}", "the returned array does not depend on the active dof: for a vector field (dof_n > 1) the value is the scalar N_node whatever the component, so a form such as u.dot(v) couples different components (mass matrix with full dof_n x dof_n blocks instead of N_a N_b delta_ij)")
     copy_rule(ctx)
-    forms_rule(ctx)
+    ctx.attempt(forms_rule, ctx)
 
 
 def copy_rule(ctx):
